@@ -282,6 +282,21 @@ impl RoomDump {
         v.sort();
         v
     }
+    /// what the daily log is a function of: rows and deletion records (not references)
+    pub fn logged_lines(&self) -> Vec<String> {
+        let mut v = vec![];
+        for n in &self.nodes {
+            v.push(n.line());
+        }
+        for n in &self.node_del {
+            v.push(n.line());
+        }
+        for e in &self.edge_del {
+            v.push(e.line());
+        }
+        v.sort();
+        v
+    }
     pub fn daily_lines(&self) -> Vec<String> {
         self.daily.iter().map(|d| d.line()).collect()
     }
